@@ -39,6 +39,7 @@ def run(ck):
                 "will_before_takeover), a contender whose own peer hangs up while it waits inside Setup, takeover between Dequeue and SavePacket; "
                 "session handover for windows 1 and 3 with queued messages, in-flight PUBLISHes, an in-flight PUBREL, an open inbound QoS 2 exchange, "
                 "two subscriptions of differing QoS (handover_sp/_messages/_pubrel/_dup/_ids/_resend_order/_incoming_qos2/_subscriptions), clean takeover "
-                "discards, a chain of five takeovers under traffic (takeover_nothing_lost), a retained QoS 1 will towards an offline subscriber; "
+                "discards, a chain of five takeovers under traffic (takeover_nothing_lost), a retained QoS 1 will towards an offline subscriber; the four clean/persistent takeover combinations with session-present and offline delivery afterwards; "
+                "three takeovers separated by pauses longer than a 700 ms kill timeout (takeover_after_pause); "
                 "on every scenario's backend log: log_unique, log_will, log_lifecycle; the open known finding is replayed twice (old connection "
                 "blocked in a carrier write; kill timeout reached with a held-back Terminate, then two further CONNECTs)")
